@@ -23,6 +23,9 @@ pub enum ReadScript {
 pub enum WriteScript {
     /// accept min(k, offered) bytes
     Accept(usize),
+    /// "accept j of r" of an abstract model (Gen_Write): all that is offered if j >= r, otherwise a
+    /// short write that leaves at least r - j bytes (1 byte for j = 1, offered - (r - j) otherwise)
+    AcceptAbs(usize, usize),
     Zero,
     Eintr,
     Eagain,
@@ -84,6 +87,12 @@ impl Write for ScriptStream {
         match o {
             WriteScript::Accept(k) => {
                 let k = k.min(buf.len());
+                st.last_sent.extend_from_slice(&buf[..k]);
+                Ok(k)
+            }
+            WriteScript::AcceptAbs(j, r) => {
+                let n = buf.len();
+                let k = if j >= r || n <= r { n } else if j == 1 { 1 } else { n - (r - j) };
                 st.last_sent.extend_from_slice(&buf[..k]);
                 Ok(k)
             }
